@@ -18,7 +18,7 @@ from vf.common import Check, short
 
 X = ('f', 'x')
 XS = ('f', 'xs')
-REF_KINDS = ('direct', 'qbody', 'qdomain', 'qunused', 'nested', 'qplain')
+REF_KINDS = ('direct', 'qbody', 'qdomain', 'qunused', 'nested', 'qplain', 'qfree', 'qfree2')
 ROUTES = ('callbacks', 'ctor', 'but_pattern', 'but_both')
 
 
@@ -33,6 +33,10 @@ def pred_for(kind: str, r, v, w):
         return ('q', 'forall', v, XS, ('bin', '>', X, ('fa', ('var', r), 'x')))
     if kind == 'nested':
         return ('q', 'forall', v, XS, ('q', 'exists', w, ('f', 'ys'), ('bin', '>', ('var', w), ('bin', '+', ('var', v), ('fa', ('var', r), 'x')))))
+    if kind == 'qfree':  # a quantifier binding v NEXT TO a free reference @r.x outside it (r may coincide with v: still free)
+        return ('bin', 'and', ('q', 'forall', v, XS, ('bin', '>', ('var', v), ('lit', 0))), ('bin', '>', X, ('fa', ('var', r), 'x')))
+    if kind == 'qfree2':  # same, with the free reference used at the variable's own type (no type clash when r coincides with v)
+        return ('bin', 'and', ('q', 'forall', v, XS, ('bin', '>', ('var', v), ('lit', 0))), ('bin', '>', X, ('var', r)))
     if kind == 'qplain':
         return ('q', 'forall', v, XS, ('bin', '>', ('var', v), ('lit', 0)))
     raise ValueError(kind)
@@ -57,6 +61,15 @@ def shapes(tier: str):
                 wcfgs.append(tuple(3 if j == i else 1 for j in range(len(pos))))
                 for i2 in range(i + 1, len(pos)):
                     wcfgs.append(tuple(2 if j in (i, i2) else 1 for j in range(len(pos))))
+        if not thorough:
+            # width 3 (right-nested disjunction of three): aliases on the wide position only, direct references
+            for i in range(len(pos)):
+                wc = tuple(3 if j == i else 1 for j in range(len(pos)))
+                slots = [(p, k) for p, w in zip(pos, wc) for k in range(w)]
+                wide = [si for si, (p, k) in enumerate(slots) if p == pos[i]]
+                for sa in [c for n in (1, 2) for c in itertools.combinations(wide, n)]:
+                    for sr in [()] + [(si,) for si in range(len(slots))]:
+                        yield {'scope': scope, 'pattern': pattern, 'pos': pos, 'widths': wc, 'slots': slots, 'alias_slots': sa, 'ref_slots': sr, 'kinds': ('direct',) * len(sr)}
         for wc in wcfgs:
             slots = [(p, k) for p, w in zip(pos, wc) for k in range(w)]
             sub_a = [c for n in range(0, 3) for c in itertools.combinations(range(len(slots)), n)]
@@ -221,7 +234,7 @@ def main() -> int:
             ck.sample({'shape': {k: shape[k] for k in ('scope', 'pattern', 'widths', 'alias_slots', 'ref_slots', 'kinds')}, 'route': route, 'paths': r['paths']})
     ck.engine('SP', shapes=nshapes, paths=paths, wall_s=round(time.time() - t0, 1))
     ck.bound('shapes', f'{nshapes}: 4 scopes x 5 patterns x (one position of width 2' + (', or 3, or two of width 2' if ck.tier == 'thorough' else '') + ') x <= 2 aliased alternatives x <= '
-             + ('2' if ck.tier == 'thorough' else '1') + ' referencing alternatives x 6 reference placements (direct, quantifier body, quantifier domain, unused variable, nested quantifier, plain quantifier) x 4 construction routes')
+             + ('2' if ck.tier == 'thorough' else '1') + ' referencing alternatives x 7 reference placements (direct, quantifier body, quantifier domain, unused variable, nested quantifier, plain quantifier, quantifier next to a free reference); one position of width 3 with aliases on its alternatives x 4 construction routes')
     ck.bound('names', 'ALL alias / reference / variable / channel names symbolic: every equality pattern between them (unbounded name space)')
     ck.coverage['evaluations'] = paths
     ck.coverage['distinct_nontrivial'] = nshapes
